@@ -53,7 +53,19 @@ class WS(PaneBase):
     a: int = 0
 
 
+class HB(PaneBase):
+    t: Literal['hb'] = 'hb'
+    a: int = 0
+
+
+class HD(HB):
+    """a variant that SUBCLASSES another variant, declared after it"""
+    t: Literal['hd'] = 'hd'
+    b: int = 0
+
+
 SETS = {
+    'h': dict(tag='t', variants=(HB, HD, VY), adj=('t', 'c')),
     's': dict(tag='t', variants=(VX, VY, VZ), adj=('t', 'c')),
     'i': dict(tag='k', variants=(W1, W2), adj=('k', 'v')),
     'm': dict(tag='k', variants=(W1, WS), adj=('k', 'v')),      # tags of mixed kind: 1 and 's'
@@ -71,13 +83,13 @@ for (_sn, _s) in SETS.items():
 
 def tag_of(sn, tk):
     """tag kinds per variant set; 1..3 are (or would be) declared tags, the rest foreign / ill-kinded"""
-    if sn == 's':
+    if sn == 's' or sn == 'h':
         if tk == 1:
-            return 'x'
+            return 'x' if sn == 's' else 'hb'
         elif tk == 2:
             return 'y'
         elif tk == 3:
-            return 'z'
+            return 'z' if sn == 's' else 'hd'
         elif tk == 4:
             return 'q'
         elif tk == 5:
@@ -116,6 +128,14 @@ def variant_of(sn, tk):
             return VY
         elif tk == 3:
             return VZ
+        return None
+    if sn == 'h':
+        if tk == 1:
+            return HB
+        elif tk == 2:
+            return VY
+        elif tk == 3:
+            return HD
         return None
     if tk == 1:
         return W1
